@@ -926,6 +926,24 @@ def r1_forwarding(program, rep):
                        "%s as %s" % (bound[k][1], k) for k in bad))
 
 
+def r1_falsy_fields(program, rep):
+    """A packet built with a field value of 0 (tag 0, port 0, core 0, chip
+    (0, 0), argument word 0) carries that 0: a default chosen by a truth
+    test in the constructors would replace it (FALSY, falsy.py; the domain
+    of every header / argument field is an unsigned integer)."""
+    from .. import falsy
+    domains = {}
+    for cls in ("SDPPacket", "SCPPacket"):
+        fn = program.get(MOD + ":%s.__init__" % cls)
+        for p in formals(fn)[1:]:
+            if p in ("data", "reply_expected"):
+                continue
+            domains[("%s:%s.__init__" % (MOD, cls), p)] = \
+                "%s is an unsigned integer field of the packet: 0 is one " \
+                "of its values" % p
+    falsy.rule(program, rep, "C15-R1", [MOD], domains)
+
+
 def check(program, rep):
     program.module(MOD)
     folder = Folder(program)
@@ -933,6 +951,7 @@ def check(program, rep):
     rep.guard("C15-R2", r2_length_guards, program, folder, rep)
     res = rep.guard("C15-R1", r1_encoder, program, folder, rep)
     rep.guard("C15-R1", r1_forwarding, program, rep)
+    rep.guard("C15-R1", r1_falsy_fields, program, rep)
     if res:
         rep.guard("C15-R2", r2_decoder, program, folder, rep, *res)
     rep.guard("C15-R3", r3_scp, program, folder, rep)
